@@ -378,6 +378,36 @@ def narrow(genfile, failures, linemap, timeout=900):
     return failures
 
 
+def fn_hashes(genfile, linemap):
+    """(interface hash, {fn: hash of every generated line of that function}).  The interface is everything a modular
+    verifier may use when it checks some OTHER function: all text outside function items (types, consts, spec items,
+    prelude, spec library) plus, for every function, its signature and contract lines."""
+    import hashlib
+    lines = open(genfile).read().split('\n')
+    per_fn, iface = {}, hashlib.sha256()
+    sig_open = {}
+    for i, l in enumerate(lines, start=1):
+        l = l.rstrip()
+        md = linemap.get(i) or linemap.get(str(i))
+        fn = md.get('fn') if md else None
+        if not fn:
+            iface.update((l + '\n').encode())
+            continue
+        per_fn.setdefault(fn, hashlib.sha256()).update((l + '\n').encode())
+        kind = md.get('kind')
+        if kind == 'external_body' or l.strip() in ('#[verifier::external_body]', '{'):
+            if l.strip() == '{':
+                sig_open[fn] = True
+            continue        # the demotion marker is not part of anybody's interface (the contract lines stay)
+        if kind in ('spec', 'attr', 'ret', 'assume_external'):
+            iface.update((fn + '|' + l + '\n').encode())
+        elif kind == 'body' and not sig_open.get(fn):
+            iface.update((fn + '|' + l + '\n').encode())       # signature lines, up to the line that opens the body
+            if l.endswith('{') or l.endswith(';'):
+                sig_open[fn] = True
+    return iface.hexdigest(), dict((k, v.hexdigest()) for k, v in per_fn.items())
+
+
 def first_error(genfile, fn, module, linemap, seeds=(0, 1), timeout=600):
     """A function that reports named failing obligations AND an exhausted resource limit: the verifier is asked for the
     first error only (--multiple-errors 1), alone, under two solver seeds.  If both runs stop at a named obligation
